@@ -6,6 +6,7 @@ import (
 	"log"
 	"net"
 	"net/http"
+	"sync"
 	"time"
 
 	"github.com/buildbuildio/pebbles/planner"
@@ -31,6 +32,23 @@ func (sd subscriptionDict) CleanAll() {
 	}
 }
 
+// syncConn serializes messages written to connection by
+// heartbeat and listeners of running subscriptions
+type syncConn struct {
+	net.Conn
+	sync.Mutex
+}
+
+// writeServerText writes message as a whole, websocket frame is
+// written in several steps and must not be mixed with other frames
+func writeServerText(conn net.Conn, msg []byte) error {
+	if sc, ok := conn.(*syncConn); ok {
+		sc.Lock()
+		defer sc.Unlock()
+	}
+	return wsutil.WriteServerText(conn, msg)
+}
+
 func sendHeartbeat(ctx context.Context, conn net.Conn) error {
 	timeTicker := time.NewTicker(time.Second * 4)
 	defer timeTicker.Stop()
@@ -42,7 +60,7 @@ func sendHeartbeat(ctx context.Context, conn net.Conn) error {
 	for {
 		select {
 		case <-timeTicker.C:
-			if err := wsutil.WriteServerText(conn, bMsg); err != nil {
+			if err := writeServerText(conn, bMsg); err != nil {
 				return err
 			}
 		case <-ctx.Done():
@@ -61,10 +79,12 @@ func (g *Gateway) subscriptionHandler(w http.ResponseWriter, r *http.Request) {
 		},
 	}
 
-	conn, _, _, err := upgrader.Upgrade(r, w)
+	rawConn, _, _, err := upgrader.Upgrade(r, w)
 	if err != nil {
 		return
 	}
+
+	var conn net.Conn = &syncConn{Conn: rawConn}
 
 	subDict := make(subscriptionDict)
 
@@ -110,7 +130,7 @@ func (g *Gateway) subscriptionHandler(w http.ResponseWriter, r *http.Request) {
 			if err != nil {
 				return
 			}
-			if err := wsutil.WriteServerText(conn, bresp); err != nil {
+			if err := writeServerText(conn, bresp); err != nil {
 				return
 			}
 			// start sending heartbeat
